@@ -124,7 +124,7 @@ func TestC11(t *testing.T) {
 			c.Inconclusive("node: %v", err)
 			return
 		}
-		defer nd.Destroy()
+		defer func() { nd.Destroy() }()
 		delivered := map[bc.Hash]bool{tr.Root.Hash: true}
 		stored := map[bc.Hash]bool{tr.Root.Hash: true}
 		var parked []*chainkit.VoteSpec
@@ -201,6 +201,19 @@ func TestC11(t *testing.T) {
 				gb := tr.ByHash[got]
 				ctx["best"] = fmt.Sprintf("h%d %s", gb.Height, chainkit.HashShort(got))
 				ctx["want"] = fmt.Sprintf("h%d %s", want.Height, chainkit.HashShort(want.Hash))
+				orph, oidx := nd.Orphans.VerifOrphanHashes()
+				ctx["orphans_in_pool"] = orph
+				ctx["orphan_index"] = oidx
+				par := map[string]string{}
+				for _, b := range tr.All {
+					if b.Parent != nil {
+						par[fmt.Sprintf("h%d %s", b.Height, chainkit.HashShort(b.Hash))] = chainkit.HashShort(b.Parent.Hash)
+					}
+				}
+				ctx["parents"] = par
+				wh := want.Hash
+				_, herr := nd.Chain.GetHeaderByHash(&wh)
+				ctx["want_block_stored"] = herr == nil
 				c.Violation("best!=fork-choice:"+kind, "the node's best block is not the block the fork-choice rule selects", ctx)
 				return
 			}
@@ -248,6 +261,37 @@ func TestC11(t *testing.T) {
 				}
 			}
 			c.Count("states_checked", 1)
+			// a clean restart must not change any of this (the checkpoint tree is rebuilt from the store)
+			if c.Index%2 == 1 && rng.Chance(1, 12) {
+				nd2, rerr := net.Reopen(nd, g)
+				if rerr != nil {
+					c.Violation("restart-failed", "the node does not start from its own store after a clean stop", map[string]interface{}{"error": rerr.Error(), "step": si, "shape": tr.Shape()})
+					return
+				}
+				nd = nd2
+				c.Count("restarts", 1)
+				trail = append(trail, "RESTART (orphan pool and parked votes are lost)")
+				// blocks that were only held in the in-memory orphan pool are gone
+				for h := range delivered {
+					if !stored[h] {
+						delete(delivered, h)
+					}
+				}
+				want2, _, info2 := forkChoice(tr, nd, stored, net.P.Epoch)
+				if want2 == nil || nd.Best() != want2.Hash {
+					ctx["fork_choice_after_restart"] = info2
+					ctx["best_after_restart"] = chainkit.HashShort(nd.Best())
+					c.Violation("best!=fork-choice:after-restart", "after a clean restart the best block is not the block the fork-choice rule selects", ctx)
+					return
+				}
+				for _, b := range tr.All {
+					if in, w := nd.Chain.InMainChain(b.Hash), stored[b.Hash] && b.IsAncestorOf(want2); in != w {
+						ctx["block"] = fmt.Sprintf("h%d %s", b.Height, chainkit.HashShort(b.Hash))
+						c.Violation("InMainChain:after-restart", "after a clean restart InMainChain disagrees with 'is an ancestor of the best block'", ctx)
+						return
+					}
+				}
+			}
 		}
 		if c.WantSample() {
 			c.Sample(map[string]interface{}{"tree_shape": tr.Shape(), "steps": desc})
@@ -258,4 +302,5 @@ func TestC11(t *testing.T) {
 	r.Floor("reorganisations_caused_by_vote", 3)
 	r.Floor("decided_by_justified", 5)
 	r.Floor("decided_by_hash", 5)
+	r.Floor("restarts", 10)
 }
